@@ -184,8 +184,12 @@ func c16Record(c *ctx, in c16Input, d *Driver, impl *[]string) {
 		}
 		// validity: query length must match; H only at the ends; S only at the ends or next to a terminal-side H
 		wantValid := c16SpecValid(ops, in.SeqLen)
-		if !hasB && validS != fmt.Sprint(wantValid) {
-			r.fail("c16.isvalid", fmt.Sprintf("IsValid(%d)=%s, specification %v", in.SeqLen, validS, wantValid), in)
+		if validS != fmt.Sprint(wantValid) {
+			sig := "c16.isvalid"
+			if hasB {
+				sig = "c16.isvalid.back"
+			}
+			r.fail(sig, fmt.Sprintf("IsValid(%d)=%s, specification %v", in.SeqLen, validS, wantValid), in)
 		}
 		// bin: reg2bin(pos, end), unmapped reads as length one; reads whose CIGAR consumes no reference are
 		// not judged (the specification does not say which length they have)
@@ -224,13 +228,12 @@ func c16Record(c *ctx, in c16Input, d *Driver, impl *[]string) {
 }
 
 // c16SpecValid: SAM spec: sum of M/I/S/=/X lengths equals the sequence length; H only first or last;
-// S only first/last or with only H between it and an end.  (B-containing CIGARs are not judged.)
+// S only first/last or with only H between it and an end; and, for the B (back) extension as the library
+// documents it, no query-consuming operation may start left of the alignment start.
 func c16SpecValid(ops []c16Op, seqLen int) bool {
 	q := 0
+	pos := 0
 	for i, o := range ops {
-		if c16SpecQuery[o.t] {
-			q += o.n
-		}
 		if o.t == 5 && i != 0 && i != len(ops)-1 {
 			return false
 		}
@@ -238,6 +241,18 @@ func c16SpecValid(ops []c16Op, seqLen int) bool {
 			if !(ops[i-1].t == 5 && i-1 == 0) && !(ops[i+1].t == 5 && i+1 == len(ops)-1) {
 				return false
 			}
+		}
+		if pos < 0 && c16SpecQuery[o.t] {
+			return false
+		}
+		if c16SpecQuery[o.t] {
+			q += o.n
+		}
+		if c16SpecRef[o.t] {
+			pos += o.n
+		}
+		if o.t == 9 {
+			pos -= o.n
 		}
 	}
 	return q == seqLen
@@ -493,32 +508,45 @@ func checkC16(c *ctx) {
 		r.Distinct += cnt
 		r.Histogram[fmt.Sprintf("csipair.exhaustive.ms%d.d%d", g.ms, g.d)] = cnt
 	}
-	big := []geo{{14, 5}, {14, 6}, {12, 5}, {16, 4}, {10, 7}, {5, 3}, {14, 0}, {20, 1}, {0, 9}}
-	nCsi := 6000
+	big := []geo{{14, 5}, {14, 5}, {14, 5}, {14, 6}, {12, 5}, {16, 4}, {10, 7}, {5, 3}, {14, 0}, {20, 1}, {0, 9}}
+	nCsi := 30000
 	if c.thorough() {
-		nCsi = 200000
+		nCsi = 600000
 	}
 	for i := 0; i < nCsi; i++ {
 		g := big[rnd.intn(len(big))]
 		limit := int64(1) << (g.ms + 3*g.d)
-		b2 := int64(rnd.u64() % uint64(limit))
-		if rnd.coin(1, 2) {
-			sh := g.ms + 3*uint32(rnd.intn(int(g.d)+1))
-			b2 = (b2>>sh)<<sh + int64(rnd.rng(-2, 2))
-			if b2 < 0 {
-				b2 = 0
+		// every end point is drawn near a bin boundary of a random level (k*2^shift + {-2..2}) half of the time
+		edge := func() int64 {
+			p := int64(rnd.u64() % uint64(limit))
+			if rnd.coin(1, 2) {
+				sh := g.ms + 3*uint32(rnd.intn(int(g.d)+1))
+				p = (p>>sh)<<sh + int64(rnd.rng(-2, 2))
 			}
-			if b2 >= limit {
-				b2 = limit - 1
+			if p < 0 {
+				p = 0
 			}
+			if p >= limit {
+				p = limit - 1
+			}
+			return p
 		}
+		b2 := edge()
 		// keep the deepest level's bin count of interval 2 below 2^12 (lists are materialised)
-		e2 := b2 + 1 + int64(rnd.u64()%uint64(minI64(limit-b2, int64(1)<<uint(rnd.rng(0, int(g.ms)+12)))))
-		if e2 > limit {
-			e2 = limit
+		maxLen := int64(1) << (g.ms + 12)
+		e2 := edge() + 1
+		if e2 <= b2 || e2-b2 > maxLen {
+			e2 = b2 + 1 + int64(rnd.u64()%uint64(minI64(limit-b2, maxLen)))
 		}
-		b1 := b2 + int64(rnd.u64()%uint64(e2-b2))
-		e1 := b1 + 1 + int64(rnd.u64()%uint64(minI64(limit-b1, int64(1)<<uint(rnd.rng(0, 30)))))
+		// interval 1 overlaps interval 2: its begin is before e2, its end after b2
+		b1 := edge()
+		if b1 >= e2 {
+			b1 = b2 + int64(rnd.u64()%uint64(e2-b2))
+		}
+		e1 := edge() + 1
+		if e1 <= b1 || e1 <= b2 {
+			e1 = maxI64(b1, b2) + 1 + int64(rnd.u64()%uint64(minI64(limit-maxI64(b1, b2), int64(1)<<uint(rnd.rng(0, 30)))))
+		}
 		if e1 > limit {
 			e1 = limit
 		}
@@ -559,6 +587,13 @@ func checkC16(c *ctx) {
 		}
 	}
 	d.compare(r, "C16", impl)
+}
+
+func maxI64(a, b int64) int64 {
+	if a > b {
+		return a
+	}
+	return b
 }
 
 func minI64(a, b int64) int64 {
